@@ -138,7 +138,7 @@ CHECKS["C02"] = (
     "Exactness on general (non-affine) quadrilaterals/hexahedra and on facets is search only; the change of "
     "variables and the reference monomial integrals are part of the statement; rounding not modelled (partial).")
 CHECKS["C03"] = (
-    "Lean 4 proof of the sharing/sign logic + kernel-checked reference facts + one-sided trace search",
+    "Lean 4 proof of the sharing/sign logic and of trace-table continuity + kernel-checked reference moment/trace facts regenerated from the live shape functions + one-sided trace search",
     "Theorems for all vertex numbers / cells: the H(curl) sign rule turns a uniform reference circulation into a "
     "circulation along the global direction low->high independent of the local edge and direction (two cells agree), "
     "the H(div) rule gives opposite signs on the two neighbours so the flux against one normal agrees, the odd-mode "
@@ -149,9 +149,12 @@ CHECKS["C03"] = (
     "implementation's orient()/gbasis signs are compared with the model on random meshes; the two one-sided traces "
     "(value / normal / tangential / gradient / defining functionals) of random coefficient vectors are compared on "
     "random renumbered, permuted, locally re-ordered and curved meshes for every element with a continuity claim.",
-    "That equal (dof, psi) lists arise for H1 elements (trace tables, facet parametrisation by ascending vertex "
-    "order) is established by the search, not yet by generated facts; curved facets and globally defined elements "
-    "are search only (partial).")
+    "H1 trace tables: for every traced H1 element the polynomials, reference facet parametrisations and key tables "
+    "are regenerated from the live lbasis and checkTraceTable/checkKeys/checkTraceReversal are evaluated by the kernel; "
+    "theorems C03_substAffine_sound, C03_unattached_vanish, C03_equal_keys_equal_traces, C03_h1_continuous (one-sided "
+    "traces agree for every coefficient vector at every facet point when equal keys carry the same global DOF), "
+    "C03_generated_traces. Curved facets, globally defined elements, ElementQuadP/LinePp and ElementTetCCR traces "
+    "and the key<->global-DOF matching on real meshes are search only (partial).")
 
 CHECKS["C06"] = (
     "Lean 4 proof composing C01 (assembly) and C05 (condense/expand) + sharp 1e-10 patch tests and projection identity",
@@ -295,6 +298,30 @@ CHECKS["C10"] = (
         "divergence identity are search only; wedges have no facet map in the library (cell maps and normals "
         "only).")
 
+
+CHECKS["C14"] = (
+    "Lean 4 proof over executable models of the finders and of probes + correspondence on the "
+    "implementation's own candidate lists / inside matrices + exact-arithmetic search",
+    "Theorems for ANY candidate list (KD-tree abstracted), any inside predicate, any number / order / "
+    "repetition of query points: the two-stage search returns only cells passing the inside test, raises iff "
+    "some point passes it for no cell, equal points get equal cells; the inside test on MappingAffine.invF's "
+    "cofactor formulas is membership in the eps-inflated simplex (1-D, 2-D, 3-D, all rational vertices); end to "
+    "end for triangular meshes and, with the proved tiling of a strictly convex quadrilateral by the two "
+    "triangles of to_meshtri and the `% nt` index theorem, for quadrilateral meshes; the 1-D argsort/digitize "
+    "finder returns a containing cell and raises iff none exists for every 1-D mesh (gaps, any numbering); the "
+    "tile/flatten/COO arithmetic of probes gives (probes(x)@y)[c*P+p] = sum_k y[dofs[k][cell_p]] phi_k^c(x_p) for "
+    "scalar, vector and tensor bases, interpolator reshape, point_source, probes at quadrature points = "
+    "interpolate. Tie: finder.decide feeds the implementation's candidate lists and inside matrices (inside "
+    "statement lifted from the live source) to the model; finder.bary, finder.line, finder.split, "
+    "probes.assemble. Search: integer-arithmetic containment oracle on graded / anisotropic / sheared meshes of "
+    "all six first-order classes with holes and notches, vertices / facet / interior / outside points singly and "
+    "in batches, the whole element pool against the located cell's local expansion, affine reproduction, "
+    "cell-number function, interpolate() at the quadrature points.",
+    "Not proved (searched only): hexahedron / prism split tiles the cell, Newton iteration of the isoparametric "
+    "invF, KD-tree; floating-point effects within the slack are outside the model. Two known findings (absolute "
+    "eps slack FC14d, absolute Newton tolerance FC14e) are matched by signature. ElementGlobal elements are "
+    "probed on well-shaped meshes only, skeleton elements and ElementComposite (NotImplementedError) not at all "
+    "(partial).")
 
 CHECKS["C15"] = (
     "Lean 4 proof about an executable memo/closure machine instantiated by a table of cache guards lifted from the live "
